@@ -783,7 +783,8 @@ class C17(Check):
                 violation = self._oracle(
                     op, events, exc, before, after, res, out.getvalue(),
                     {late["path"]: late["data"]} if late else None)
-                trail.append([op["kind"], [list(e) for e in events
+                trail.append([op["kind"], [list(e[:2]) if e[0] == "planted"
+                                           else list(e) for e in events
                                            if e[0] != "open_r"],
                               type(exc).__name__ if exc else None,
                               sorted((k, digest_of(v[0])) for k, v in
